@@ -963,36 +963,45 @@ def phase_joinnames(ctx, phase):
 
 
 def _verbnames_exec(args):
-    """worker: performs the single-verb calls of MC_VerbNames configurations on the real code (Polars, one row)"""
+    """worker: performs the single-verb calls of MC_VerbNames configurations on the real code (Polars and SQLite, one row)"""
     cols, cfgs = args
     import polars as pl
     import pydiverse.transform as pdt
-    from pydiverse.transform import drop, export, mutate, rename, select
+    import sqlalchemy as sqa
+    from pydiverse.transform import drop, export, group_by, mutate, rename, select, summarize
 
+    df = pl.DataFrame({n: [i + 1] for i, n in enumerate(cols)})
+    eng = sqa.create_engine("sqlite://", poolclass=sqa.pool.StaticPool)
+    df.write_database("t", eng, if_table_exists="replace")
     out = []
     for c in cfgs:
-        base = pdt.Table(pl.DataFrame({n: [i + 1] for i, n in enumerate(cols)}), name="t")
-        rec = dict(c=c, out=[], exp=[], err="")
-        try:
-            t = base >> select(*[base[n] for n in c["vis"]])       # the other columns are hidden
-            if c["verb"] == "rename":
-                r = t >> rename({k: v for k, v in c["map"]})
-            elif c["verb"] == "select":
-                r = t >> select(*[t[n] for n in c["args"]])
-            elif c["verb"] == "drop":
-                r = t >> drop(*[t[n] for n in c["args"]])
-            else:
-                first = t[c["vis"][0]]
-                r = t >> mutate(**{n: first + (i + 1) for i, n in enumerate(c["args"])})
-            rec["out"] = [col.name for col in r]
+        for bk in ("polars", "sqlite"):
+            base = pdt.Table(df, name="t") if bk == "polars" else pdt.Table("t", pdt.SqlAlchemy(eng), name="t")
+            rec = dict(c=c, backend=bk, out=[], exp=[], err="")
             try:
-                rec["exp"] = list((r >> export(pdt.Polars())).columns)
+                t = base >> select(*[base[n] for n in c["vis"]])       # the other columns are hidden
+                if c["verb"] == "rename":
+                    r = t >> rename({k: v for k, v in c["map"]})
+                elif c["verb"] == "select":
+                    r = t >> select(*[t[n] for n in c["args"]])
+                elif c["verb"] == "drop":
+                    r = t >> drop(*[t[n] for n in c["args"]])
+                elif c["verb"] == "summarize":
+                    first = t[c["vis"][0]]
+                    g = t >> group_by(*[t[k] for k, _ in c["map"]]) if c["map"] else t
+                    r = g >> summarize(**{n: first.max() + i for i, n in enumerate(c["args"])})
+                else:
+                    first = t[c["vis"][0]]
+                    r = t >> mutate(**{n: first + (i + 1) for i, n in enumerate(c["args"])})
+                rec["out"] = [col.name for col in r]
+                try:
+                    rec["exp"] = list((r >> export(pdt.Polars())).columns)
+                except Exception as e:  # noqa: BLE001
+                    rec["exp"] = ["!" + type(e).__name__]
             except Exception as e:  # noqa: BLE001
-                rec["exp"] = ["!" + type(e).__name__]
-        except Exception as e:  # noqa: BLE001
-            rec["err"] = type(e).__name__
-            rec["msg"] = str(e)[:160].split("\n")[0]
-        out.append(rec)
+                rec["err"] = type(e).__name__
+                rec["msg"] = str(e)[:160].split("\n")[0]
+            out.append(rec)
     return out
 
 
@@ -1034,7 +1043,7 @@ def phase_verbnames(ctx, phase):
         counts[c["verb"]][v["verdict"]] += 1
         if v["verdict"] != "ok":
             arg = dict(c["map"]) if c["verb"] == "rename" else c["args"]
-            ctx.failures.append(dict(clause="names", backend="polars", step=0, tainted=False, src=["names"], srcidx=0, exc=r["err"] or None,
+            ctx.failures.append(dict(clause="names", backend=r["backend"], step=0, tainted=False, src=["names"], srcidx=0, exc=r["err"] or None,
                                      detail=f"{c['verb']} names: {v['verdict']}: visible {c['vis']} (columns {cols}) {c['verb']}({arg}) -> "
                                             f"names {r['out']} export {r['exp']} {r['err']} {r.get('msg', '')}",
                                      moves=[dict(v=c["verb"], i=1)], heap_obs=[], beh=r))
